@@ -54,6 +54,18 @@ type faultReader struct {
 	withData bool
 	onOffset func()
 	fired    bool
+	err      error // the failure (default errInjected)
+}
+
+// sourceErrors are failures a source may report; several of them are values that code between
+// the source and the store is tempted to give a meaning of its own (end of content, time-out ...)
+var sourceErrors = []error{errInjected, io.ErrUnexpectedEOF, io.ErrClosedPipe, io.ErrShortBuffer, io.ErrNoProgress, context.Canceled, context.DeadlineExceeded, os.ErrDeadlineExceeded, os.ErrClosed, syscall.ENOSPC, syscall.EPIPE, fmt.Errorf("wrapped: %w", io.EOF)}
+
+func (r *faultReader) failure() error {
+	if r.err != nil {
+		return r.err
+	}
+	return errInjected
 }
 
 func (r *faultReader) Read(p []byte) (int, error) {
@@ -68,7 +80,7 @@ func (r *faultReader) Read(p []byte) (int, error) {
 		if r.pos >= len(r.data) {
 			return 0, io.EOF
 		}
-		return 0, errInjected
+		return 0, r.failure()
 	}
 	n := copy(p, r.data[r.pos:r.off])
 	if n > 1500 {
@@ -76,7 +88,7 @@ func (r *faultReader) Read(p []byte) (int, error) {
 	}
 	r.pos += n
 	if r.pos >= r.off && r.withData && r.onOffset == nil && r.off < len(r.data) {
-		return n, errInjected
+		return n, r.failure()
 	}
 	return n, nil
 }
@@ -307,7 +319,9 @@ func c10Reader(tier string, seed int64, idx int, scratch string) rt.CaseResult {
 						allowed = [][]byte{prev}
 					}
 					pl := startPoller(x.verify, key, allowed, !hadPrev)
-					werr := env.DB.SetReader(ctxBg, key, &faultReader{data: src, off: off, withData: withData})
+					serr := sourceErrors[(n+idx)%len(sourceErrors)]
+					plan["source_error"] = serr.Error()
+					werr := env.DB.SetReader(ctxBg, key, &faultReader{data: src, off: off, withData: withData, err: serr})
 					bad := pl.finish()
 					no := false
 					c.Evals++
@@ -315,6 +329,7 @@ func c10Reader(tier string, seed int64, idx int, scratch string) rt.CaseResult {
 						return c
 					}
 					c.AddDistinct(fmt.Sprintf("%s/setreader/reader-error/data=%v/off=%s/prev=%v", modeName(mode), withData, offsetClass(off, l), hadPrev))
+					c.Observe("source errors used", serr.Error())
 					c.Count("polls_during_faulty_writes", pl.n.Load())
 				}
 			}
